@@ -23,7 +23,27 @@
 //! Part D (diff): every sequence of write-interface edits up to a length on
 //!   every zone of the universe inside ONE version; the diff returned by
 //!   commit, applied by the model to `old`, must equal the new content.
-//! Part S (sender): AXFR / IXFR requests through the real XfrMiddlewareSvc.
+//! Part S (sender): the sender zone is built at `old` and edited to `new`
+//!   (optionally through a mid version) with the real write interface, diffing
+//!   on; AXFR / IXFR requests (TCP and UDP contexts, three message-size limits,
+//!   compatibility mode, known / unknown / current client serial) go through
+//!   the real XfrMiddlewareSvc; the emitted messages must be read by the
+//!   reference as a valid transfer of exactly the sender's zone, and the real
+//!   receiver holding the requester's version must end up with that zone.
+//!
+//! Oracles (every case): no panic; reference verdict vs pipeline outcome
+//! (invalid => Err or never finished; valid => finished and receiver ==
+//! transferred zone as a sorted record multiset; cases the RFCs leave open
+//! accept either); every reader opened after a message sees `old` or a version
+//! the reference saw completed, and keeps seeing it; a reader opened before
+//! the transfer keeps seeing `old`; every diff returned by apply()/commit()
+//! applied to the content before the commit gives the content after it.
+//!
+//! Tiers: quick = pairs <=2 RRsets apart, all splits up to 8 RRs, faults on
+//! pairs <=1 apart over splits with <=2 cuts, edit sequences <=2; thorough =
+//! pairs <=3 apart, all splits up to 10 RRs and both question modes, faults
+//! on pairs <=2 apart over splits with <=3 cuts, edit sequences <=3.
+//! `C10_DRY=1` only counts the cases of parts R and F (sizing aid).
 
 use bytes::{Bytes, BytesMut};
 use domain::base::iana::{Class, Opcode, Rcode};
@@ -773,12 +793,16 @@ struct Shared {
 /// Report a violation; the (costly) description and replay case are only
 /// built for the first instance of a signature.
 fn report(sh: &Shared, sig: &str, what: &dyn Fn() -> String, case: &dyn Fn() -> Value) {
-    let first = sh.seen.lock().unwrap().insert(sig.to_string());
-    if first {
-        sh.ctx.violation(sig, &what(), case());
-    } else {
-        sh.ctx.violation(sig, "", Value::Null);
+    {
+        // the first instance is handed to Ctx while the lock is held, so that
+        // no later instance (empty description) can overtake it
+        let mut g = sh.seen.lock().unwrap();
+        if g.insert(sig.to_string()) {
+            sh.ctx.violation(sig, &what(), case());
+            return;
+        }
     }
+    sh.ctx.violation(sig, "", Value::Null);
 }
 
 /// Keep one sample per key, at most 48 keys.
@@ -1386,6 +1410,12 @@ fn apply_fault(specs: &[MsgSpec], f: &Fault) -> Option<Vec<MsgSpec>> {
     Some(s)
 }
 
+/// C10_DRY=1: only count the cases of parts R and F (sizing aid, not a tier).
+fn dry() -> bool {
+    static D: std::sync::OnceLock<bool> = std::sync::OnceLock::new();
+    *D.get_or_init(|| std::env::var("C10_DRY").is_ok())
+}
+
 fn run_pair(sh: &Shared, old_k: Kinds, new_k: Kinds, b: &Bounds) {
     let old = zone_recs(old_k);
     let d = dist(old_k, new_k);
@@ -1396,6 +1426,10 @@ fn run_pair(sh: &Shared, old_k: Kinds, new_k: Kinds, b: &Bounds) {
             let qmodes: Vec<u8> = if b.both_qmodes { vec![0, 1] } else { vec![(mask.count_ones() & 1) as u8] };
             for qmode in qmodes {
                 let specs = split_specs(&st.seq, mask, st.qtype, qmode);
+                if dry() {
+                    lcount("dry:R");
+                    continue;
+                }
                 let msgs: Vec<Bytes> = specs.iter().map(build_msg).collect();
                 let c = Case {
                     part: "R",
@@ -1429,6 +1463,10 @@ fn run_pair(sh: &Shared, old_k: Kinds, new_k: Kinds, b: &Bounds) {
             let specs = split_specs(&st.seq, mask, st.qtype, qmode);
             for f in all_faults(&specs) {
                 let Some(fs) = apply_fault(&specs, &f) else { continue };
+                if dry() {
+                    lcount("dry:F");
+                    continue;
+                }
                 let msgs: Vec<Bytes> = fs.iter().map(build_msg).collect();
                 let c = Case {
                     part: "F",
